@@ -47,6 +47,7 @@ enum Class {
     Count(u64),
     Invalid,
     Full,
+    Rejected, // pre-flight: non-finite / norm out of tolerance (nothing logged)
     Err(String),
 }
 
@@ -104,19 +105,26 @@ fn normalize(metric: u8, v: &[u32]) -> Option<Vec<u32>> {
     }
 }
 
-/// Would HnswVectorIndex::add_vector accept this (already normalised) vector?  Conservative margin on the
-/// norm so that the SIMD summation order cannot flip the decision; vectors failing this are kept out of
-/// C02 histories (the reject-after-append branch is defect #1, handled by C03).
-fn index_accepts(metric: u8, v: &[u32]) -> bool {
+/// Does the index accept this (already normalised) vector?  Mirrors the pre-flight in HnswBackend::insert
+/// (= HnswVectorIndex::add_vector): all components finite; for cosine / inner product norm_sq in
+/// [0.98, 1.02].  `None` = too close to the tolerance edge to decide independently of the SIMD
+/// summation order; such vectors are kept out of the histories.
+fn index_accepts(metric: u8, v: &[u32]) -> Option<bool> {
     let f = floats(v);
     if f.iter().any(|x| !x.is_finite()) {
-        return false;
+        return Some(false);
     }
     if metric == 0 {
-        return true;
+        return Some(true);
     }
     let n: f64 = f.iter().map(|x| (*x as f64) * (*x as f64)).sum();
-    (0.985..=1.015).contains(&n)
+    if (0.985..=1.015).contains(&n) {
+        Some(true)
+    } else if !(0.97..=1.03).contains(&n) {
+        Some(false)
+    } else {
+        None
+    }
 }
 
 fn canon_meta(m: &Meta) -> Meta {
@@ -169,6 +177,14 @@ fn vector_pool(dim: usize, r: &mut Rng) -> Vec<Vec<f32>> {
     p.push(unit.iter().map(|x| x * 1.004).collect());
     p.push(unit.iter().map(|x| x * 1.02).collect());
     p.push((0..dim).map(|_| rand_unit(r) * 4.0 + 0.1).collect());
+    // refused by the pre-flight (after normalisation): NaN, infinity, overflowing squares
+    let mut nan = vec![1.0f32; dim];
+    nan[dim - 1] = f32::NAN;
+    p.push(nan);
+    let mut inf = vec![0.5f32; dim];
+    inf[0] = f32::INFINITY;
+    p.push(inf);
+    p.push(vec![1e30; dim]); // norm_sq = inf: cosine normalises to all zeros (refused); euclidean accepts
     p
 }
 
@@ -195,7 +211,7 @@ fn gen_case(r: &mut Rng, pools: &HashMap<usize, Vec<Vec<f32>>>, maxlen: usize) -
     let cfg = Cfg { metric, dim, interval, max_wal, cap };
     let nid = r.range(4, 8);
     let pool = &pools[&dim];
-    // vectors of this case that the index accepts after normalisation (or that are refused BEFORE the append)
+    // every pool vector whose fate is decidable independently of the SIMD summation order
     let usable: Vec<Vec<u32>> = pool
         .iter()
         .map(|v| bits(v))
@@ -205,7 +221,7 @@ fn gen_case(r: &mut Rng, pools: &HashMap<usize, Vec<Vec<f32>>>, maxlen: usize) -
             }
             match normalize(metric, b) {
                 None => true,
-                Some(w) => index_accepts(metric, &w),
+                Some(w) => index_accepts(metric, &w).is_some(),
             }
         })
         .collect();
@@ -219,7 +235,7 @@ fn gen_case(r: &mut Rng, pools: &HashMap<usize, Vec<Vec<f32>>>, maxlen: usize) -
             let v = if r.chance(9, 10) {
                 let good: Vec<&Vec<u32>> = usable
                     .iter()
-                    .filter(|b| b.len() == dim && normalize(metric, b).is_some())
+                    .filter(|b| b.len() == dim && normalize(metric, b).map(|w| index_accepts(metric, &w) == Some(true)).unwrap_or(false))
                     .collect();
                 (*r.pick(&good)).clone()
             } else {
@@ -295,6 +311,8 @@ fn classify_err(e: &anyhow::Error) -> Class {
         Class::Invalid
     } else if l.contains("index full") {
         Class::Full
+    } else if l.contains("non-finite") || l.contains("requires l2-normalized") {
+        Class::Rejected
     } else {
         Class::Err(s.chars().take(160).collect())
     }
@@ -555,6 +573,8 @@ struct Intern {
     strs: Vec<String>,
     smap: HashMap<String, usize>,
     norm: BTreeMap<Vec<u32>, Option<Vec<u32>>>, // table of c_normalize (cosine / inner product branch)
+    rej_e: Vec<Vec<u32>>,                      // vectors the index refuses under Euclidean
+    rej_c: Vec<Vec<u32>>,                      // normalised vectors the index refuses under cosine / inner product
     idem_checked: u64,
     idem_failed: Vec<Value>,
 }
@@ -581,6 +601,19 @@ impl Intern {
     }
     /// Record raw -> normalised, and normalised -> normalise(normalised) (bitwise idempotence is the
     /// Section-style hypothesis `norm_idem` of C02; measured here on every vector used).
+    fn note_accept(&mut self, metric: u8, raw: &[u32]) {
+        if metric == 0 {
+            if index_accepts(0, raw) == Some(false) && !self.rej_e.iter().any(|x| x == raw) {
+                self.v(raw);
+                self.rej_e.push(raw.to_vec());
+            }
+        } else if let Some(w) = normalize(1, raw) {
+            if index_accepts(1, &w) == Some(false) && !self.rej_c.iter().any(|x| *x == w) {
+                self.v(&w);
+                self.rej_c.push(w);
+            }
+        }
+    }
     fn note_norm(&mut self, raw: &[u32]) {
         if self.norm.contains_key(raw) {
             return;
@@ -592,11 +625,14 @@ impl Intern {
             self.v(&w);
             let ww = normalize(1, &w);
             self.idem_checked += 1;
-            if ww.as_ref() != Some(&w) {
+            if ww.as_ref() != Some(&w) && index_accepts(1, &w) == Some(true) {
                 self.idem_failed.push(json!({"raw_bits": raw, "normalised_bits": w, "renormalised_bits": ww}));
             }
             if normalize(2, raw).as_ref() != Some(&w) {
                 self.idem_failed.push(json!({"raw_bits": raw, "note": "cosine and inner-product normalisation differ"}));
+            }
+            if let Some(x) = &ww {
+                self.v(x);
             }
             self.norm.entry(w.clone()).or_insert(ww);
         }
@@ -610,7 +646,7 @@ fn coq_class(c: &Class) -> String {
         Class::Count(n) => format!("(KCount {})", n),
         Class::Invalid => "KInvalid".into(),
         Class::Full => "KFull".into(),
-        Class::Err(_) => "KErr".into(),
+        Class::Rejected | Class::Err(_) => "KErr".into(),
     }
 }
 
@@ -626,6 +662,9 @@ fn coq_case(id: usize, c: &Case, obs: &[Obs], it: &mut Intern) -> String {
             Op::Insert { id, vec, meta } => {
                 if c.cfg.metric != 0 && vec.len() == c.cfg.dim {
                     it.note_norm(vec);
+                }
+                if vec.len() == c.cfg.dim {
+                    it.note_accept(c.cfg.metric, vec);
                 }
                 format!("OInsert {} {} {}", id, it.v(vec), it.meta(meta))
             }
@@ -660,8 +699,9 @@ fn coq_case(id: usize, c: &Case, obs: &[Obs], it: &mut Intern) -> String {
         ob.push(format!("mkObs {} {} {}", coq_class(&o.class), cen, sh));
     }
     format!(
-        "({}, mkCfg {} {} {} {} {} FsNever cnorm (fun _ => true),\n   [{}],\n   [{}])",
+        "({}, mkCfg {} {} {} {} {} FsNever cnorm {},\n   [{}],\n   [{}])",
         id, metric, c.cfg.dim, c.cfg.interval, c.cfg.max_wal, c.cfg.cap,
+        if c.cfg.metric == 0 { "cacc_e" } else { "cacc_c" },
         ops.join("; "),
         ob.join(";\n    ")
     )
@@ -692,6 +732,9 @@ fn coq_file(body: &str, it: &Intern) -> String {
         .collect();
     let _ = writeln!(s, "Definition ntab : list (vec * option vec) := [{}].", tab.join("; "));
     s.push_str("Definition cnorm (v : vec) : option vec := match find (fun p => vec_eqb (fst p) v) ntab with Some p => snd p | None => None end.\n");
+    let _ = writeln!(s, "Definition rej_e : list vec := [{}].", it.rej_e.iter().map(|v| format!("v{}", it.vmap[v])).collect::<Vec<_>>().join("; "));
+    let _ = writeln!(s, "Definition rej_c : list vec := [{}].", it.rej_c.iter().map(|v| format!("v{}", it.vmap[v])).collect::<Vec<_>>().join("; "));
+    s.push_str("Definition cacc_e (v : vec) : bool := negb (existsb (vec_eqb v) rej_e).\nDefinition cacc_c (v : vec) : bool := negb (existsb (vec_eqb v) rej_c).\n");
     s.push_str("Definition D (v : vec) (m : meta) : doc := mkDoc v m.\n");
     // NOTE: the case list is NOT bound by a Definition: storing it in the .vo costs coqc ~12 s per shard.
     s.push_str("Definition check1 (c : N * cfg * list op * list obs) : list (N * N) := match c with (id, cf, ops, os) => match check_history cf ops os with None => [] | Some i => [(id, i)] end end.\n");
@@ -817,6 +860,7 @@ fn main() {
                 Class::Count(k) => format!("ok_count_{}", if *k == 0 { "0" } else { "pos" }),
                 Class::Invalid => "err_invalid".to_string(),
                 Class::Full => "err_index_full".to_string(),
+                Class::Rejected => "err_rejected_preflight".to_string(),
                 Class::Err(_) => "err_other".to_string(),
             };
             if !cl.starts_with("err") {
